@@ -123,7 +123,7 @@ theorem eq_of_getD : ∀ (a b : List Nat), a.length = b.length →
 
 /-- the decoder's test: some attribute vertex of `c` differs from the previous corner's -/
 def chgR (prev c : FanCorner) : Bool := avDiff c.av prev.av
-/-- the encoder's test -/
+/-- the encoder's test before fix: commit 49d6567 -/
 def encR (prev c : FanCorner) : Bool := if c.pid != prev.pid then true else avDiff c.av prev.av
 /-- the specification's test -/
 def specR (prev c : FanCorner) : Bool := prev.av != c.av
@@ -133,17 +133,23 @@ theorem decWalk_eq_cnt (l : List FanCorner) : ∀ x, decWalk x l = cnt chgR x l 
   | nil => intro x; rfl
   | cons c cs ih => intro x; simp only [decWalk, cnt, chgR, ih c, ite_toNat]
 
-theorem encWalk_eq_cnt (l : List FanCorner) : ∀ x, encWalk x.pid x l = cnt encR x l := by
+theorem encWalk_eq_cnt (l : List FanCorner) : ∀ x, encWalk x l = cnt chgR x l := by
+  induction l with
+  | nil => intro x; rfl
+  | cons c cs ih => intro x; simp only [encWalk, cnt, chgR, ih c, ite_toNat]
+
+theorem encWalkPreFix_eq_cnt (l : List FanCorner) :
+    ∀ x, encWalkPreFix x.pid x l = cnt encR x l := by
   induction l with
   | nil => intro x; rfl
   | cons c cs ih =>
     intro x
     by_cases h : c.pid = x.pid
-    · simp only [encWalk, cnt, encR, h, bne_self_eq_false, Bool.false_eq_true, if_false,
+    · simp only [encWalkPreFix, cnt, encR, h, bne_self_eq_false, Bool.false_eq_true, if_false,
         ite_toNat]
       rw [← h, ih c]
     · have hb : (c.pid != x.pid) = true := bne_iff_ne.2 h
-      simp only [encWalk, cnt, encR, hb, if_true, ih c, Bool.toNat_true]
+      simp only [encWalkPreFix, cnt, encR, hb, if_true, ih c, Bool.toNat_true]
 
 theorem avChanges_eq_cnt (f : Fan) (c0 : FanCorner) (cs : List FanCorner)
     (hc : f.corners = c0 :: cs) :
@@ -298,10 +304,9 @@ theorem encR_eq_specR (a b : FanCorner) (hl : a.av.length = b.av.length)
     unfold encR specR
     rw [if_pos hb, bne_iff_ne.2 hne]
 
-/-- under H1 the encoder's seam count is the number of attribute-vertex changes -/
+/-- the encoder's seam count is the number of attribute-vertex changes -/
 theorem encSeams_eq_avChanges (f : Fan)
-    (hlen : ∀ c ∈ f.corners, c.av.length = f.onSeam.length)
-    (h1 : ∀ p ∈ f.pairs, p.1.pid ≠ p.2.pid → p.1.av ≠ p.2.av) :
+    (hlen : ∀ c ∈ f.corners, c.av.length = f.onSeam.length) :
     encSeams f = f.avChanges := by
   cases hc : f.corners with
   | nil => simp [encSeams, Fan.avChanges, Fan.pairs, hc]
@@ -311,6 +316,32 @@ theorem encSeams_eq_avChanges (f : Fan)
     rw [hc]
     simp only
     rw [encWalk_eq_cnt]
+    apply cnt_chgR_eq_specR f.onSeam.length _ c0 (hlen _ (by simp [hc]))
+    intro c hcm
+    apply hlen
+    rw [hc]
+    by_cases hcl : f.closed = true
+    · rw [if_pos hcl] at hcm
+      rcases List.mem_append.1 hcm with h | h
+      · exact List.mem_cons_of_mem _ h
+      · rw [List.mem_singleton.1 h]; exact List.mem_cons_self
+    · rw [if_neg hcl] at hcm
+      exact List.mem_cons_of_mem _ hcm
+
+/-- before fix: commit 49d6567 — under H1 the encoder's seam count was the number of
+    attribute-vertex changes -/
+theorem encSeamsPreFix_eq_avChanges (f : Fan)
+    (hlen : ∀ c ∈ f.corners, c.av.length = f.onSeam.length)
+    (h1 : ∀ p ∈ f.pairs, p.1.pid ≠ p.2.pid → p.1.av ≠ p.2.av) :
+    encSeamsPreFix f = f.avChanges := by
+  cases hc : f.corners with
+  | nil => simp [encSeamsPreFix, Fan.avChanges, Fan.pairs, hc]
+  | cons c0 cs =>
+    rw [avChanges_eq_cnt f c0 cs hc]
+    unfold encSeamsPreFix
+    rw [hc]
+    simp only
+    rw [encWalkPreFix_eq_cnt]
     apply cnt_congr
     intro p hp
     have hpf : p ∈ f.pairs := by unfold Fan.pairs; rw [hc]; exact hp
@@ -329,6 +360,14 @@ theorem encSeams_eq_avChanges (f : Fan)
           exact List.mem_cons_of_mem _ h
     apply encR_eq_specR _ _ _ (h1 p hpf)
     rw [hlen _ (hall _ m1), hlen _ (hall _ (List.mem_cons_of_mem _ m2))]
+
+/-- on deduplicated inputs (H1) the pre-fix formula (commit 49d6567) agrees with the repaired one -/
+theorem encPointsPreFix_eq (f : Fan)
+    (hlen : ∀ c ∈ f.corners, c.av.length = f.onSeam.length)
+    (h1 : ∀ p ∈ f.pairs, p.1.pid ≠ p.2.pid → p.1.av ≠ p.2.av) :
+    encPointsPreFix f = encPoints f := by
+  unfold encPointsPreFix encPoints
+  rw [encSeamsPreFix_eq_avChanges f hlen h1, encSeams_eq_avChanges f hlen]
 
 /-! ### decoder -/
 
